@@ -218,6 +218,38 @@ def obligations(r, tier, seed):
         k.raises(lambda: export_only(k, g), "two different offsets under one parameter id: the export is refused")
     obs.append(Ob("C13/refusal/conflicting-offsets-for-one-id", refuse_conflict, funcs=FUNCS, light=True))
 
+    # ---- export returns  ==>  the file holds THIS graph.  A graph that was read from a file remembers the file's parameters; when
+    #      its landmark edges are then given another offset under the same id, the export either refuses or writes the offset the
+    #      edges use (re-import yields the exported graph) -- never the remembered one.
+    for how in ("loaded-then-offset-replaced", "registered-parameter-differs"):
+        def stale(k, how=how):
+            from gsv.engine_common import is_control_exception
+            r_ = k.r
+            vs = [r_.Vertex(0, k.pose("SE3", "p")), r_.Vertex(1, k.pose("R3", "l")), r_.Vertex(2, k.pose("R3", "m"))]
+            o_old, o_new = k.pose("SE3", "off_old"), k.pose("SE3", "off_new")
+            k.assume((o_old[0] - o_new[0]) * (o_old[0] - o_new[0]) > 0, "the new offset differs from the one in the file")
+            mk = lambda off: [r_.EdgeLandmark([0, 1], k.spd_matrix("O", 3), k.pose("R3", "z"), off, 7),
+                              r_.EdgeLandmark([0, 2], k.spd_matrix("O2", 3), k.pose("R3", "z2"), off, 7)]
+            if how == "loaded-then-offset-replaced":
+                out = k.returns(lambda: roundtrip(k, r_.Graph(mk(o_old), vs)), "a consistent graph is written and read back")
+                if out is None:
+                    return
+                g = out[0]
+                for e in g._edges:
+                    e.offset = o_new
+            else:
+                g = r_.Graph(mk(o_new), vs)
+                g._g2o_params = {("PARAMS_SE3OFFSET", 7): r_.g2o_parameters.G2OParameterSE3Offset(("PARAMS_SE3OFFSET", 7), o_old)}
+            try:
+                g2, _ = roundtrip(k, g)
+            except Exception as e:      # noqa: BLE001
+                if is_control_exception(e):
+                    raise
+                k.check(isinstance(e, ValueError), "the export is refused with a ValueError", type(e).__name__)
+                return
+            compare(k, g, g2, "the export was accepted, so the file holds the exported graph: ")
+        obs.append(Ob("C13/accepted-export-holds-this-graph/%s" % how, stale, funcs=FUNCS, light=True, eager=True, max_paths=256))
+
     # ---- internal: writers use round-tripping number formats; packing/unpacking of symmetric information
     for n in (2, 3, 6):
         def tri(k, n=n):
